@@ -103,7 +103,9 @@ func contentON(s *Schema, key *string, inArray bool, u *used) *vlib.ON {
 			}
 			if r.Key == "type" {
 				typ = r.SVal
-				u.add(r.SVal)
+				if strings.HasPrefix(r.SVal, "@") {
+					u.add(r.SVal)
+				}
 			}
 		}
 		sv := s.Lit
@@ -326,6 +328,13 @@ func Expect(doc *Doc) *vlib.ON {
 				}
 				c := newObj().str("tokenType", "object").str("type", "object").set("children", arr(kids...)).set("optional", oB(false))
 				sc := newObj().set("content", c.n).str("notation", "jsight")
+				if len(u.list) > 0 {
+					var items []*vlib.ON
+					for _, n := range u.list {
+						items = append(items, oS(n))
+					}
+					sc.set("usedUserTypes", arr(items...))
+				}
 				o.set("pathVariables", newObj().set("schema", sc.n).n)
 			}
 			var urlTags []string
